@@ -15,7 +15,6 @@ use super::background::start_background_workers;
 use super::reader::Reader;
 use super::topic_clean::{CleanMarkerStore, TopicCleanTracker};
 use super::writer::Writer;
-use rkyv::Deserialize;
 
 #[derive(Clone, Copy, Debug)]
 pub enum ReadConsistency {
@@ -337,15 +336,14 @@ impl Walrus {
                 }
                 let mut aligned = rkyv::AlignedVec::with_capacity(meta_len);
                 aligned.extend_from_slice(&meta_buf[2..2 + meta_len]);
-                // SAFETY: `aligned` was constructed from a bounded metadata slice
-                // read from our file; alignment is ensured by `AlignedVec`.
-                // SAFETY: `aligned` is built from bounded bytes inside the block,
-                // copied into `AlignedVec` ensuring alignment for rkyv.
-                let archived = unsafe { rkyv::archived_root::<Metadata>(&aligned[..]) };
-                let md: Metadata = match archived.deserialize(&mut rkyv::Infallible) {
+                // the header bytes are untrusted: validate before access, and treat a unit whose
+                // first header does not decode like an empty one
+                let md: Metadata = match crate::wal::block::decode_metadata(&aligned[..]) {
                     Ok(m) => m,
                     Err(_) => {
-                        break;
+                        block_offset += DEFAULT_BLOCK_SIZE;
+                        skipped_units += 1;
+                        continue;
                     }
                 };
                 let col_name = md.owned_by;
